@@ -1796,7 +1796,7 @@ func init() {
 					"phase live (c20_r5live.go): %d sites (binary operators, in, index, slice, call arguments of script / Go / variadic / deferred calls, callee, list and map literals incl. the key, send value and channel, delete, switch subject, make sizes, multi-value return / assignment, the right side of element / key / member / field stores, switch case lists, Go parameters typed T / ...T, for-in subjects in the one- and two-variable form, the key of a typed map literal, the index operand of the container of a nested assignment target, the target operands of the comma-ok statement, in-place stores made through the result of a function whose body reads the place, and the bindings: =, var, multi-assignment, module member, comma-ok into a name / a module member, member, element, field, parameters, closure, explicit and implicit results (also with a deferred store), for-in variable, literals, Go argument, send, deferred argument) x %d operand kinds (scalars, named types, Go arrays [3]int64 / [2]string / [2]float64 / [2][2]int64, structs (one holding an array), typed slice, typed map, pointers, open / closed channel, Go function) x 12 places holding the operand (name, module member, []T element, field typed T, *T target, element of an array / slice field, untyped list element, map entry / member, map[string]T entry, interface{} field) x {the place is REPLACED by a sibling value, the value held there is MUTATED in place} while the operation is under way or right after the binding; reference in position: the same program with the operand id(place) and func(){ return place }(); variants place, (place), (true ? place : nil) (quick: place and one of the other two) (complete); plus the special families forin-var (the loop variable against a let-bound copy, pointer elements, 8 containers) and addr-hop; "+
 					"phase bindpos (c20_r6.go): a name is a name however it was bound - the operation runs INSIDE the construct binding the hole's name (for-in over an untyped list / a variadic tail / a list returned by Go / a []T / a [1]T / a chan T / the values of an untyped and of a typed map, a parameter of a callee called by the script or by a Go function, var), reference in position = the same program with the name bound by `=` in a block; compared incl. field / element stores and pointer-receiver methods through the name and the name read again afterwards; thorough = every template x value x 5 source hops x 11 binding constructs, quick = the value- / type- / identity-revealing and storing templates x struct and array values (from a host value and from a typed slot) plus %d core templates x every value (complete); "+
 					"phase deep: quick = 8 PRNG chains of length 2..3 per (template,value), thorough = every chain of length 2 plus 80 PRNG chains of length 3. "+
-					"Each instantiation runs in a fresh environment with fresh operand objects. An evaluation is non-trivial when the reference or the variant succeeded; distinct = distinct (template, value, source).", nT, nV, nA, len(g.atoms)-nA-len(bindWraps)-1, len(bindWraps), len(c20Live().sites), len(c20Live().kinds), len(c20BindCore)),
+					"Each instantiation runs in a fresh environment with fresh operand objects. An evaluation is non-trivial when the reference or the variant succeeded; distinct = distinct (template, value, source)."+c20R8Rule+c20R9Rule, nT, nV, nA, len(g.atoms)-nA-len(bindWraps)-1, len(bindWraps), len(c20Live().sites), len(c20Live().kinds), len(c20BindCore)),
 				Assumptions: []string{
 					"error texts are not compared (statement: same error-or-success), except for throw",
 					"pointers/channels/functions are compared by identity with the operand object and by their effects, never by printed address",
@@ -1808,8 +1808,9 @@ func init() {
 					"round-5 classes not generated while their c20PendingFix_* constant (c20_r5live.go) is true: container of an assignment target read from a slot (liveTargetContainer), write-back of &x given through a hop (addrHopWriteback), a Go array as the container of an index expression (liveArrayContainer), the receiver of a method call with arguments (liveMethodReceiver)",
 					"round-4 classes not generated while their c20PendingFix_* constant is true: live for-in subject, live defer / call callee read from a typed func slot, boxed result list of a multi-result callback, value of `place op= e` / `place++` for map / member places, parenthesised assignment targets",
 					"classes known to violate the statement on the unchanged tree are not generated while their c20PendingFix_* constant is true: addressable binding (&name, in-place mutation of a name bound from a typed location), live left operand / Go-call argument, implicit function result, slicing a non-addressable array, switch/in with a boxed pointer, values boxed in non-empty interface types, syntactic &name write-back",
+					c20R8Assumptions[0], c20R8Assumptions[1], c20R8Assumptions[2], c20R9Assumptions[0],
 				},
-				Phases: []fw.Phase{
+				Phases: append([]fw.Phase{
 					{Name: "fixed", Cases: len(c20FixedCases), Chunk: len(c20FixedCases), Exhaust: true, TimeoutS: 300},
 					{Name: "len1", Cases: nT * nV, Chunk: 160, Exhaust: true, TimeoutS: 900},
 					{Name: "typed", Cases: len(sensT) * nV, Chunk: 160, Exhaust: true, TimeoutS: 900},
@@ -1819,10 +1820,17 @@ func init() {
 					{Name: "live", Cases: c20LiveCases(), Chunk: 160, Jobs: 4, MemMB: 3072, Exhaust: true, TimeoutS: 900},
 					{Name: "concur", Cases: c20ConcurCases(), Chunk: 2, TimeoutS: 900},
 					{Name: "concur-race", Race: true, Cases: c20ConcurCases(), Chunk: c20ConcurCases(), TimeoutS: 900},
-				},
+				}, append(c20R8Phases(tier), c20R9Phases(tier)...)...), // hot, stream, sizes: c20_r8.go; overlap: c20_r9.go
 			}
 		},
 		Run: func(c *wk.Case) {
+			if c20R8Run(c) {
+				return
+			}
+			if c.Phase == "overlap" {
+				c20R9Overlap(c)
+				return
+			}
 			switch c.Phase {
 			case "concur":
 				c20RunConcur(c, map[string]int{"quick": 30000, "thorough": 300000}[c.Tier])
